@@ -1418,7 +1418,17 @@ func (cs *clientStream) writeRequest(req *http.Request, streamf func(*clientStre
 				return err
 			}
 		}
-		if err = cs.writeRequestBody(req, bodyDumps); err != nil {
+		// awaitFlowControl sleeps on cc.cond. Once RoundTrip has returned (the peer
+		// answered before the request body was written) nobody is left to wake it
+		// when the request is canceled, so do that here.
+		stopWake := context.AfterFunc(ctx, func() {
+			cc.mu.Lock()
+			cc.cond.Broadcast()
+			cc.mu.Unlock()
+		})
+		err = cs.writeRequestBody(req, bodyDumps)
+		stopWake()
+		if err != nil {
 			if err != errStopReqBodyWrite {
 				traceWroteRequest(cs.trace, err)
 				return err
